@@ -399,7 +399,9 @@ fn download_to_file(path: &Path, url: &str, timeout: Duration) -> Result<File> {
         env!("CARGO_PKG_VERSION"),
         env!("CARGO_PKG_REPOSITORY")
     ))?;
-    easy.timeout(timeout)?;
+    // libcurl counts in whole milliseconds and takes 0 to mean "no
+    // timeout at all".
+    easy.timeout(timeout.max(Duration::from_millis(1)))?;
 
     let mut write_handle = temp_file.as_file_mut().try_clone()?;
     easy.write_function(move |data| {
